@@ -13,7 +13,7 @@ from bubus import BaseEvent, EventBus  # noqa: E402
 
 LEVEL = 'model_checking'
 RULE = ('event streams of length <= 3 (thorough 4) over {T1 v=0, T1 v=1, T2 v=1} dispatched by main with environment waits in between; 1-2 concurrent expect() calls drawn from a menu of '
-        '(type by class, by name or the wildcard "*", include / exclude / deprecated predicate in {default, explicit None, v==1, raises}, timeout in {None, 0.5}); calls start before the stream or after its first '
+        '(type by class, by name or the wildcard "*", include / exclude / deprecated predicate in {default, explicit None, v==1, raises}, timeout in {None, 0.5, 0}); calls start before the stream or after its first '
         'event; an external canceller cancels the first call after 0-2 waits; calls still pending at the end are cancelled by the harness. Processing order comes from a sync probe handler '
         'registered before any expect(). all schedules <= L deviations. non-trivial = an expect call was pending while at least one event of its type was processed; distinct = recorder traces')
 ASSUMPTIONS = ['an event processed at the very instant of the deadline (|dt| < 1 us) may or may not be seen',
@@ -55,6 +55,7 @@ MENU = [
     ('T1', 'str', 'default', 'default', 'none', None),  # 11
     ('*', 'str', 'is1', 'default', 'default', 0.5),     # 12: wildcard expect: any event type (its temporary handler sits in the '*' list, beside typed subscriptions)
     ('*', 'str', 'default', 'default', 'default', None),  # 13
+    ('T1', 'cls', 'default', 'default', 'default', 0),  # 14: timeout=0 - 'do not wait at all' is a legitimate deadline, not 'no deadline'
 ]
 
 
@@ -211,7 +212,7 @@ def families(tier):
         streams += list(itertools.product(letters, repeat=n))
     if deep:
         streams += [st for st in itertools.product(letters, repeat=4) if st[0] == ('T1', 0) and st[3] != ('T2', 1)]
-    call_sets = [(i,) for i in range(8)] + [(10,), (11,), (10, 0), (12,), (13,), (12, 0), (0, 1), (1, 2), (3, 4), (0, 5), (2, 6), (1, 7), (4, 0), (0, 8), (8, 0), (1, 9), (9, 1)]
+    call_sets = [(i,) for i in range(8)] + [(10,), (11,), (10, 0), (12,), (13,), (12, 0), (14,), (14, 0), (0, 1), (1, 2), (3, 4), (0, 5), (2, 6), (1, 7), (4, 0), (0, 8), (8, 0), (1, 9), (9, 1)]
     for stream in streams:
         for calls in call_sets:
             if len(calls) == 2 and len(stream) > (3 if deep else 2):
